@@ -776,15 +776,16 @@ func heldSections(c *vlib.Ctx) {
 		} else {
 			total = np
 		}
-		per := int64(total / c.NShards)
-		c.Floor("held_cases", per/2, c.Counter("held_cases"))
-		c.Floor("held_results", per, c.Counter("held_results"))
-		c.Floor("held_reverifications", per*2, c.Counter("held_reverifications"))
-		c.Floor("held_decodes_after_a_later_encode", per/2, c.Counter("held_decodes_after_a_later_encode"))
-		c.Floor("held_decoded_object_reverifications", per, c.Counter("held_decoded_object_reverifications"))
-		c.Floor("held_later_encode_of_equal_size_as_a_held_result", per/20, c.Counter("held_later_encode_of_equal_size_as_a_held_result"))
-		c.Floor("held_later_encode_smaller_than_a_held_result", per/10, c.Counter("held_later_encode_smaller_than_a_held_result"))
-		c.Floor("held_later_encode_larger_than_a_held_result", per/10, c.Counter("held_later_encode_larger_than_a_held_result"))
-		c.Floor("held_parallel_cases", int64(np/c.NShards)/2, c.Counter("held_parallel_cases"))
+		per := int64(total / c.NShards) // cases of this shard; a case has 2…6 objects, each encoded once or twice
+		c.Floor("held_cases", per/10, c.Counter("held_cases"))
+		c.Floor("held_results", per/2, c.Counter("held_results"))
+		c.Floor("held_reverifications", per*4, c.Counter("held_reverifications"))
+		c.Floor("held_decodes_after_a_later_encode", per/4, c.Counter("held_decodes_after_a_later_encode"))
+		c.Floor("held_decoded_object_reverifications", per*2, c.Counter("held_decoded_object_reverifications"))
+		c.Floor("held_later_encode_of_equal_size_as_a_held_result", per/4, c.Counter("held_later_encode_of_equal_size_as_a_held_result"))
+		c.Floor("held_later_encode_smaller_than_a_held_result", per/4, c.Counter("held_later_encode_smaller_than_a_held_result"))
+		c.Floor("held_later_encode_larger_than_a_held_result", per/4, c.Counter("held_later_encode_larger_than_a_held_result"))
+		c.Floor("held_results_overwritten_by_the_caller", per/5, c.Counter("held_results_overwritten_by_the_caller"))
+		c.Floor("held_parallel_cases", int64(np/c.NShards)/10, c.Counter("held_parallel_cases"))
 	}
 }
